@@ -302,3 +302,63 @@ def restrict_join(behs, infos):
         nb["limit"] = limit
         out.append(nb)
     return out
+
+
+# --------------------------------------------------------------------------------------------
+# model checking of the mechanism specification Receiver.tla composed with the monitors (cached: depends on the spec only)
+
+MC_RX_VARIANTS = {
+    "C01": [("once-ignored", "clean-channel-object-not-delivered-exactly")],
+    "C02": [("rs-needs-all-source-symbols", "recoverable-object-not-delivered")],
+    "C03": [("complete-one-symbol-early", "complete-but-bytes-differ-from-the-sender-object")],
+    "C09": [("no-terminal-call-at-drop", "opened-writer-without-terminal-call-at-drop"),
+            ("failed-write-ignored", "complete-but-not-exactly-the-announced-content-written"),
+            ("error-after-complete", "terminal-call-before-open-or-second-terminal")],
+    "C16": [],
+    "C19": [("expiry-ignored", "delivery-started-through-expired-fdt")],
+}
+
+
+def _mc_rx_hash():
+    import hashlib
+    h = hashlib.md5()
+    for fn in ("Receiver.tla", "ReceiverProps.tla", "MC_Receiver.tla", "Partition.tla", "PartitionCore.tla", "VCommon.tla"):
+        h.update(open(os.path.join(SPEC, fn), "rb").read())
+    return h.hexdigest()[:12]
+
+
+def mc_receiver(ctx, variant, maxpush, expect=None):
+    """Runs MC_Receiver (mechanism + monitors).  variant "ok": must complete without violation.
+    Otherwise the run must report the conjunct `expect` (vacuity guard of the monitors)."""
+    import re
+    cdir = os.path.join(VERIF, "work", "cache")
+    os.makedirs(cdir, exist_ok=True)
+    cpath = os.path.join(cdir, "mc-receiver-%s-%d-%s.json" % (variant, maxpush, _mc_rx_hash()))
+    if os.path.exists(cpath):
+        j = json.load(open(cpath))
+        j["cached"] = True
+    else:
+        cfg = ctx.path("mcr-%s.cfg" % variant)
+        open(cfg, "w").write('SPECIFICATION Spec\nCONSTANTS MaxPush = %d Variant = "%s" SessSet = {1, 2, 3, 4} CfgSet = {1, 2, 3, 4, 5, 6, 7, 8, 9, 10}\n'
+                             'INVARIANT ShowBad NoViolation\nVIEW MCView\nCHECK_DEADLOCK FALSE\n' % (maxpush, variant))
+        r = tlc(ctx, "MC_Receiver", cfg=cfg, workers=8, mode="mc", timeout=3000)
+        bads = set()
+        for m_ in re.finditer(r'<<\s*"BAD",(.*?)>>\s*>>', r["stdout"], re.S):
+            bads.update(re.findall(r'"([a-z][a-z0-9-]+)"', m_.group(1)))
+        j = {"name": "MC_Receiver[variant=%s,MaxPush=%d,4 sessions x 10 configurations]" % (variant, maxpush), "states": r["distinct"],
+             "generated": r["generated"], "wall_s": r["wall_s"], "completed_without_violation": r["ok"], "reported": sorted(bads)}
+        if not r["ok"] and not bads:
+            raise ToolError("MC_Receiver[%s] failed without a monitor report:\n%s" % (variant, "\n".join(
+                l for l in r["stdout"].splitlines() if "rror" in l or "Attempted" in l or "exception" in l)[:800]))
+        if (variant == "ok" and r["ok"]) or (variant != "ok" and not r["ok"]):
+            json.dump(j, open(cpath, "w"))
+    ctx.mc.append(j)
+    if variant == "ok":
+        if not j["completed_without_violation"]:
+            ctx.notes["mc_receiver_design_counterexample"] = j["reported"]
+    else:
+        j["expected"] = expect
+        j["monitor_not_vacuous"] = (not j["completed_without_violation"]) and (expect in j["reported"])
+        if not j["monitor_not_vacuous"]:
+            raise ToolError("self-test failed: broken mechanism variant %s did not make the monitor report %s (reported %s)" % (variant, expect, j["reported"]))
+    return j
